@@ -304,7 +304,11 @@ func runC05(b *mon.B) {
 			b.Class("server/oversize/%d/%s", announced, split)
 			h := rfc8907.Header{Major: 0xc, Minor: 0, Type: 1 + r.Intn(3), Seq: 1, Session: r.U32(), Length: announced}
 			hb := h.Encode()
+			// a fresh, otherwise idle server: the heap meter is process-wide, so nothing else
+			// (in particular no long event log being grown by the monitor) may allocate meanwhile
+			srv := kit.StartLib(secret, &c05Handler{})
 			c := srv.L.Dial(simnet.RemoteFor(caseNo))
+			c.WaitQuiescent()
 			before := srv.Tap.Count()
 			var ms runtime.MemStats
 			runtime.ReadMemStats(&ms)
@@ -321,10 +325,12 @@ func runC05(b *mon.B) {
 			c.Stall()
 			if err := c.WaitClosed(); err != nil {
 				b.Inconclusive("case %d: %v", caseNo, err)
+				srv.Stop()
 				continue
 			}
 			runtime.ReadMemStats(&ms)
 			grown := ms.TotalAlloc - alloc0
+			defer srv.Stop()
 			b.Max("max:oversize_scenario_heap_growth_bytes", int(grown))
 			// after the byte that completes the header no further Read may be issued
 			delivered := 0
@@ -349,7 +355,7 @@ func runC05(b *mon.B) {
 			if readsAfter > 0 || timeouts > 0 {
 				b.Violate(caseNo, "C05/server/oversize-header-waited-for-body", fmt.Sprintf("header announcing %d body bytes: the server issued %d more reads instead of refusing at once", announced, readsAfter), w)
 			}
-			if grown > 1<<20 {
+			if grown > 64<<10 {
 				b.Violate(caseNo, "C05/server/oversize-header-allocated", fmt.Sprintf("header announcing %d body bytes: %d bytes allocated", announced, grown), w)
 			}
 			if srv.Tap.Count() != before {
